@@ -569,6 +569,7 @@ func c03Stateless(c *Ctx, r *Result, gr *Grammar) {
 		r.Undecide("R03f: %v", err)
 		return
 	}
+	rtIface := c.Interface("parser", "Runtime")
 	var kinds []string
 	for name, e := range gr.ByName {
 		if name != "" && (e.Ld == "ldInfix" || e.Nd == "ndPrefix") {
@@ -623,8 +624,12 @@ func c03Stateless(c *Ctx, r *Result, gr *Grammar) {
 				case WGlobal:
 					stateful = true
 				case WParam:
-					if !w.Direct && fn.Signature.Recv() != nil && len(fn.Params) > 0 && w.Root == ssa.Value(fn.Params[0]) {
-						stateful = true
+					// memory of a runtime component (the node's evaluator); the debugger's and the
+					// provider's own bookkeeping is not operator state (C15 / C12)
+					if !w.Direct && fn.Signature.Recv() != nil && len(fn.Params) > 0 && w.Root == ssa.Value(fn.Params[0]) && rtIface != nil {
+						if rn := namedOf(fn.Params[0].Type()); rn != nil && (types.Implements(types.NewPointer(rn), rtIface) || types.Implements(rn, rtIface)) {
+							stateful = true
+						}
 					}
 				}
 				if stateful && bad == "" {
